@@ -6,10 +6,39 @@ import (
 	"github.com/vektah/gqlparser/v2/ast"
 )
 
+// mergeSameResponseKeys implements GraphQL field merging for sibling fields: a response key
+// selected several times at one level (a { x } a { y }) stands for one field whose
+// sub-selections are put together (a { x y }).
+func mergeSameResponseKeys(selectionSet ast.SelectionSet) ast.SelectionSet {
+	var result ast.SelectionSet
+	first := make(map[string]*ast.Field)
+	for _, sel := range selectionSet {
+		f, ok := sel.(*ast.Field)
+		if !ok {
+			result = append(result, sel)
+			continue
+		}
+		prev, seen := first[f.Alias]
+		if !seen {
+			cpy := *f
+			first[f.Alias] = &cpy
+			result = append(result, &cpy)
+			continue
+		}
+		if len(f.SelectionSet) != 0 {
+			merged := make(ast.SelectionSet, 0, len(prev.SelectionSet)+len(f.SelectionSet))
+			merged = append(merged, prev.SelectionSet...)
+			merged = append(merged, f.SelectionSet...)
+			prev.SelectionSet = merged
+		}
+	}
+	return result
+}
+
 func sanitizeSelectionSet(ctx *PlanningContext, selectionSet ast.SelectionSet, insertionPoint []string) (ast.SelectionSet, ScrubFields) {
 	scrubFields := make(ScrubFields)
 	var result ast.SelectionSet
-	for _, s := range selectionSet {
+	for _, s := range mergeSameResponseKeys(selectionSet) {
 		switch s := s.(type) {
 		case *ast.Field:
 			if len(s.SelectionSet) != 0 {
@@ -169,11 +198,22 @@ func addScrubFieldsToSelectionSet(ctx *PlanningContext, selectionSet ast.Selecti
 func addSelectionSetToSanitizedResult(s ast.SelectionSet, ss ...ast.Selection) ast.SelectionSet {
 	ss = lo.Filter(ss, func(sel ast.Selection, i int) bool {
 		f, ok := sel.(*ast.Field)
-		if ok && selectionSetHasFieldNamed(s, f.Alias) {
+		if ok && selectionSetHasResponseKey(s, f.Alias) {
 			return false
 		}
 		return true
 
 	})
 	return append(s, ss...)
+}
+
+// selectionSetHasResponseKey tells whether a field is already answered under this key
+// (its alias, or its name when it has none)
+func selectionSetHasResponseKey(ss ast.SelectionSet, key string) bool {
+	for _, selection := range ss {
+		if field, ok := selection.(*ast.Field); ok && field.Alias == key {
+			return true
+		}
+	}
+	return false
 }
